@@ -12,7 +12,15 @@ H2 = "self.decode_item_header(data, start)[2]"  # length field of the item heade
 def paths_of(ctx, finfo, params=None, keep=()):
     """Canonical paths of a method (helpers inlined, aliases replaced); Unsupported -> ANALYSIS-ERROR by the caller."""
     fn = normal.normalised(ctx, finfo, keep=keep, comps=False, ifexp=False)
-    return summary.summarise(fn, params, module_literals(ctx.repo, finfo, fn))
+    return summary.summarise(fn, params, module_literals(ctx.repo, finfo, fn), seq_names=_seq_names(ctx.repo, finfo, fn))
+
+
+def _seq_names(repo, finfo, fn):
+    """Parameters annotated as sequences plus the attributes that hold a sequence in every object of the function's class."""
+    names = set(summary.sequence_parameters(fn)) | set(summary.sequence_parameters(finfo.node))
+    if finfo.cls is not None and hasattr(repo, "class_seq_attrs"):
+        names |= repo.class_seq_attrs(finfo.cls)
+    return names
 
 
 def module_literals(repo, finfo, fn) -> dict:
@@ -455,11 +463,12 @@ def reference_paths(source: str, params=None, like=None, repo=None):
     normal._redundant_guard_pass(fn)
     normal._unroll_pass(fn)
     normal._while_true_pass(fn)
+    normal._nested_if_pass(fn)
     if like is not None and repo is not None:
         from .. import callnorm
 
         callnorm.canonicalise(repo, ("function", fn, like.module, like.cls))
-    seq = summary.sequence_parameters(like.node) if like is not None else None  # the model text carries no annotations: the implementation's apply
+    seq = _seq_names(repo, like, like.node) if like is not None and repo is not None else (summary.sequence_parameters(like.node) if like is not None else None)  # the model text carries no annotations: the implementation's apply
     return summary.summarise(fn, params, module_literals(repo, like, fn) if like is not None and repo is not None else None, seq_names=seq)
 
 
@@ -509,7 +518,7 @@ def reference_paths_inlined(ctx, finfo, reference: str, params, keep, vanished):
     ref_repo = _model.Repo(ctx.repo.root, overrides=overrides, share=ctx.repo)
     ref_f = ref_repo.method(cls.name, finfo.name, inherited=False)
     fn, _ = normal.normalise(ref_repo, ref_f, keep=set(keep) - set(vanished), comps=False, ifexp=False)
-    return summary.summarise(fn, params, module_literals(ref_repo, ref_f, fn))
+    return summary.summarise(fn, params, module_literals(ref_repo, ref_f, fn), seq_names=_seq_names(ref_repo, ref_f, fn))
 
 
 def agree(ctx, rule, finfo, reference: str, what: dict, params=None, keep=(), key_prefix="", only_cases=None, ignore=()):
